@@ -9,7 +9,7 @@ PAT="${1:-}"; TIER="${2:-quick}"
 ISO="${ISO:-/tmp/verif-iso}"
 mkdir -p "$ISO"
 if [ ! -d "$ISO/repo" ]; then git -C /repo worktree add --detach "$ISO/repo" HEAD -q || exit 2; fi
-git -C "$ISO/repo" checkout -q --detach "$(git -C /repo rev-parse HEAD)" 2>/dev/null; git -C "$ISO/repo" checkout -q -- .
+git -C "$ISO/repo" checkout -q --detach "$(git -C /repo rev-parse HEAD)" 2>/dev/null; git -C "$ISO/repo" checkout -q -- . ; git -C "$ISO/repo" clean -fdq
 mkdir -p "$ISO/verif"
 rsync -a --delete --exclude target "$HERE/sim/" "$ISO/verif/sim/"
 cp "$HERE/known_findings.json" "$ISO/verif/"
@@ -26,9 +26,9 @@ for meta in "$HERE"/mutants/*.meta "$HERE"/seeded/*/meta.env; do
     prop="$(grep '^property=' "$meta" | cut -d= -f2)"
     expect="$(grep '^expect=' "$meta" | cut -d= -f2)"
     git -C "$ISO/repo" apply "$patch" || { echo "$name: patch does not apply"; fail=$((fail+1)); continue; }
-    (cd "$ISO/verif/sim" && cargo build --release --offline -q 2> "$ISO/build.log") || { echo "MISS  $name: build failed"; grep -E '^error' -A6 "$ISO/build.log" | head; git -C "$ISO/repo" checkout -q -- .; fail=$((fail+1)); continue; }
+    (cd "$ISO/verif/sim" && cargo build --release --offline -q 2> "$ISO/build.log") || { echo "MISS  $name: build failed"; grep -E '^error' -A6 "$ISO/build.log" | head; git -C "$ISO/repo" checkout -q -- . ; git -C "$ISO/repo" clean -fdq; fail=$((fail+1)); continue; }
     out="$("$ISO/verif/sim/target/release/simcheck" check "$prop" "$TIER" 2>&1)"; code=$?
-    git -C "$ISO/repo" checkout -q -- .
+    git -C "$ISO/repo" checkout -q -- . ; git -C "$ISO/repo" clean -fdq
     sig="$(echo "$out" | grep -E '^  [A-Z][0-9]+\|' | head -2 | cut -c1-150 | tr '\n' ';')"
     if { [ "$expect" = "quiet" ] && [ $code -eq 0 ]; } || { [ "$expect" != "quiet" ] && [ $code -eq 1 ]; }; then
         echo "ok    $name [$prop] exit=$code $sig"; pass=$((pass+1))
